@@ -30,6 +30,15 @@ SHIPPED = [  # (glue, X, T) of the shipped curves (unit / pi square: 4 equal sid
 ]
 
 
+# minimised past failures, replayed first (found by the Lean-side search for a negation witness of
+# `grading_no_assert` on the unrepaired model and confirmed on the real code)
+CORPUS = [
+    (0, [F(0), F(1), F(3)], [F(0), F(1)], [('rs', 0), ('rs', 2), ('rt', 5), ('rt', 6)], 2),
+    (0, [F(0), F(1), F(2)], [F(0), F(1)], [('rs', 0), ('rs', 2), ('rs', 4), ('rs', 6), ('rt', 9), ('rt', 10), ('rt', 16),
+                                           ('rt', 24), ('rt', 34), ('rt', 46)], 2),
+]
+
+
 class Timeout(Exception):
     pass
 
@@ -90,9 +99,16 @@ def search(res, tier, boost=False):
     rng = seed_rng(res.seed, 'C19s')
     n = (30 if tier == 'quick' else 400) * (3 if boost else 1)
     signal.signal(signal.SIGALRM, _alarm)
-    for h, glue, X, T, bias, sigma, L in histories(res, rng, n, 25 if tier == 'quick' else 200):
+    todo = [(-1 - i, c[0], c[1], c[2], None, c[4], c[3]) for i, c in enumerate(CORPUS)]
+    todo += list(histories(res, rng, n, 25 if tier == 'quick' else 200))
+    for h, glue, X, T, bias, sigma, L in todo:
         pm = PyMesh.create(glue, X, T)
         ops = []
+        if isinstance(L, list):
+            for op in L:
+                ops.append(op)
+                pm.apply(op)
+            L = 0
         for k in range(L):
             leaves = list(pm.mesh.leaf_elements)
             mlx = max(e.levels[1] for e in leaves)
